@@ -29,9 +29,29 @@ Qed.
 Lemma inv_init : Inv init [].
 Proof. repeat split. intros i saved. discriminate. Qed.
 
+(* a block and a complete evaluation NESTED in a resumption (a user predicate that queries) leave no trace: the block writes back
+   the mode it found, and so does the resumption's own bracket - both facts come from Generated.v *)
+Lemma nested_transparent s : nested s = s.
+Proof.
+  unfold nested, leave. cbn [frames f_block f_prev cur estack iters pushes].
+  assert (E1 : block_restores_entry_mode = true) by reflexivity. rewrite E1.
+  destruct an_mode_off_around_next; unfold set_cur; cbn [cur frames estack iters]; destruct s; reflexivity.
+Qed.
+
+Lemma inv_step_next s bs i ex : Inv s bs -> Inv (step_next s i ex) bs.
+Proof.
+  intros (HF & HC & HE & HP). unfold step_next. rewrite yields_outside_mode_block.
+  destruct (aget (iters s) i) as [[|saved holds|]|] eqn:EI.
+  - destruct ex; repeat split; cbn; auto; apply no_pending_aset; try exact HP; intros sv; discriminate.
+  - destruct holds; [exfalso; exact (HP i saved EI)|].
+    destruct ex; [|repeat split; auto]. cbn [finish]. repeat split; cbn; auto. apply no_pending_aset; [exact HP | discriminate].
+  - repeat split; auto.
+  - repeat split; auto.
+Qed.
+
 Lemma inv_step s bs o : Inv s bs -> Inv (step s o) (ref_step bs o).
 Proof.
-  intros (HF & HC & HE & HP). destruct o as [b| | |i|i ex|i|i|r]; cbn [step ref_step].
+  intros (HF & HC & HE & HP). destruct o as [b| | |i|i ex|i|i|i ex|r]; cbn [step ref_step].
   - (* enter *) repeat split; cbn.
     + exact HC.
     + exact HF.
@@ -53,13 +73,7 @@ Proof.
       * rewrite Hb. unfold ref_depth in *. cbn [filter] in HE. destruct (pushes b); cbn [length] in HE; lia.
       * exact HP.
   - (* create *) repeat split; cbn; auto. apply no_pending_aset; [exact HP | discriminate].
-  - (* next *) rewrite yields_outside_mode_block.
-    destruct (aget (iters s) i) as [[|saved holds|]|] eqn:EI.
-    + destruct ex; repeat split; cbn; auto; apply no_pending_aset; try exact HP; intros sv; discriminate.
-    + destruct holds; [exfalso; exact (HP i saved EI)|].
-      destruct ex; [|repeat split; auto]. cbn [finish]. repeat split; cbn; auto. apply no_pending_aset; [exact HP | discriminate].
-    + repeat split; auto.
-    + repeat split; auto.
+  - (* next *) now apply inv_step_next.
   - (* close *) destruct (aget (iters s) i) as [[|saved holds|]|] eqn:EI.
     + repeat split; cbn; auto. apply no_pending_aset; [exact HP | discriminate].
     + destruct holds; [exfalso; exact (HP i saved EI)|]. cbn [finish]. repeat split; cbn; auto. apply no_pending_aset; [exact HP | discriminate].
@@ -70,6 +84,7 @@ Proof.
     + destruct holds; [exfalso; exact (HP i saved EI)|]. cbn [finish]. repeat split; cbn; auto. apply no_pending_aset; [exact HP | discriminate].
     + repeat split; auto.
     + repeat split; auto.
+  - (* next, with a block and an evaluation nested in the resumption *) rewrite nested_transparent. now apply inv_step_next.
   - (* the *) repeat split; auto.
 Qed.
 
